@@ -553,6 +553,8 @@ def run(ctx):
     r02g(ctx)
     r02h(ctx)
     r02j(ctx)
+    from ..memo import e13b
+    e13b(ctx)         # no cost is memoised under a key that conflates 1, 1.0 and True
     from . import c14
     from .. import cli
     f, specs, groups = cli.parse_cli(m)
